@@ -8,6 +8,7 @@ Confirms a seeded change produced by a sub-agent (in /tmp/wt/<PROP>/seed<k>/) an
 """
 import json, os, shutil, subprocess, sys, glob, re
 prop, k = sys.argv[1], sys.argv[2]
+wtid = k
 keep = '--keep' in sys.argv
 src = f'/tmp/wt/{prop}/seed{k}'
 stored = None
@@ -23,7 +24,7 @@ def run(cmd, cwd=None, timeout=900):
     r = subprocess.run(cmd, shell=True, cwd=cwd, env=env, capture_output=True, text=True, timeout=timeout)
     return r.returncode, (r.stdout + r.stderr)
 meta = json.load(open(src + '/meta.json'))
-wt = f'/tmp/seedwt.{prop}.{k}'
+wt = f'/tmp/seedwt.{prop}.{wtid}'
 run(f'git -C /repo worktree remove --force {wt}')
 rc, out = run(f'git -C /repo worktree add -q --detach {wt} HEAD')
 assert rc == 0, out
@@ -51,6 +52,13 @@ try:
     if not res['demo_passes_without_change']: res['demo_output_clean'] = out[-600:]
 finally:
     run(f'git -C /repo worktree remove --force {wt}')
+if os.environ.get('SEED_SKIP_CHECKS'):
+    # confirmation only (touches nothing but its own scratch worktree, so several can run at once)
+    if keep and stored:
+        meta['confirmed'] = {x: res.get(x) for x in ('applies', 'builds', 'suite_passes_with_change', 'demo_fails_with_change', 'demo_passes_without_change')}
+        json.dump(meta, open(stored + '/meta.json', 'w'), indent=1)
+    res['caught_by'] = meta.get('caught_by', {}); res['target_check_fires'] = prop in res['caught_by']
+    print(json.dumps(res, indent=1)); sys.exit(0)
 # run the checks against /repo with the patch applied
 assert run('git -C /repo status --porcelain')[1].strip() == '', '/repo not clean'
 rc, out = run(f'git -C /repo apply {src}/patch.diff'); assert rc == 0, out
